@@ -5,7 +5,9 @@ import (
 	"fmt"
 	"io"
 	"math/rand"
+	"strings"
 	"testing/iotest"
+	"time"
 
 	"github.com/klauspost/compress/s2"
 	"github.com/wrgl/wrgl/pkg/encoding"
@@ -164,7 +166,7 @@ func c18Decode(stream string, r io.Reader) (out string, err error) {
 			fmt.Fprintf(&sb, "%q;", s)
 		}
 		return sb.String(), fmt.Errorf("no end")
-	case "commit":
+	case "commit", "commit-long":
 		_, c, e := objects.ReadCommitFrom(r)
 		if e != nil {
 			return "", e
@@ -248,6 +250,10 @@ func c18Stream(stream string, size int, rng *rand.Rand) (data []byte, cuts []int
 			if rng.Intn(4) > 0 {
 				s = gen.Cell(rng, gen.CellSimple) + " " + gen.Cell(rng, gen.CellSimple)
 			}
+			if rng.Intn(4) == 0 {
+				// a long payload: delivered in hundreds of pieces by the small chunkers
+				s = strings.Repeat(s+"~", 1+(100+rng.Intn(3000))/(len(s)+1))
+			}
 			start := buf.Len()
 			pktline.WritePktLine(&buf, b, s)
 			cuts = append(cuts, start+1, start+2, start+4, start+5)
@@ -256,8 +262,22 @@ func c18Stream(stream string, size int, rng *rand.Rand) (data []byte, cuts []int
 	}
 	corpusName := map[string]string{"commit": "commit", "blockindex": "blockindex", "profile": "profile", "uintlist": "uintlist", "strlist": "strlist-read", "strlist-bytes": "strlist-read"}
 	switch stream {
+	case "commit-long":
+		// text fields far longer than any chunk: 102 bytes is the first length that takes more than 101 one-byte reads
+		lens := []int{0, 20, 101, 102, 300, 5000, 65535}
+		cm := &objects.Commit{Table: rand16(rng), AuthorName: strings.Repeat("n", lens[(size/7)%7]), AuthorEmail: "e@x", Time: time.Unix(1600000000+int64(size), 0), Message: strings.Repeat("m", lens[size%7])}
+		for i := 0; i < size%3; i++ {
+			cm.Parents = append(cm.Parents, rand16(rng))
+		}
+		var buf bytes.Buffer
+		cm.WriteTo(&buf)
+		data = buf.Bytes()
 	case "table":
-		t := objects.NewTable([]string{"id", "a", gen.Cell(rng, gen.CellHostile)}, []uint32{0})
+		names := []string{"id", "a", gen.Cell(rng, gen.CellHostile)}
+		if size%2 == 1 {
+			names = append(names, strings.Repeat("long column name ", 8+rng.Intn(40)))
+		}
+		t := objects.NewTable(names, []uint32{0})
 		t.RowsCount = uint32(size * 255)
 		for i := 0; i < size; i++ {
 			t.Blocks = append(t.Blocks, rand16(rng))
@@ -348,7 +368,7 @@ func init() {
 			for r := 0; r < reps; r++ {
 				l.Add("packfile", c18Params{Stream: "packfile", Size: 1 + rng.Intn(20)}, 0)
 				l.Add("pktline", c18Params{Stream: "pktline", Size: 1 + rng.Intn(12)}, 0)
-				for _, st := range []string{"commit", "block", "blockindex", "profile", "uintlist", "strlist", "strlist-bytes"} {
+				for _, st := range []string{"commit", "commit-long", "block", "blockindex", "profile", "uintlist", "strlist", "strlist-bytes"} {
 					l.Add(st, c18Params{Stream: st, Size: rng.Intn(300)}, 0)
 				}
 				l.Add("table", c18Params{Stream: "table", Size: []int{0, 1, 3, 40, 600}[rng.Intn(5)]}, 0)
